@@ -125,6 +125,7 @@ func (c *OCSPRevocationChecker) parseOcspResponse(certCandidates []*core.Certifi
 func (c *OCSPRevocationChecker) Provision(ocspConfig *config.OCSPConfig, logger *zap.Logger) error {
 	c.ocspConfig = ocspConfig
 	c.logger = logger
+	c.cache = cache2go.Cache("ocsp_client")
 	return nil
 }
 
@@ -185,8 +186,6 @@ func (c *OCSPRevocationChecker) filterHTTPOCSPServers(ocspServerList []string) [
 }
 
 func (c *OCSPRevocationChecker) tryGetResponseFromCache(cacheKey string) (*core.RevocationStatus, error) {
-	c.cache = cache2go.Cache("ocsp_client")
-
 	// Let's retrieve the item from the cache.
 	res, err := c.cache.Value(cacheKey)
 	if err == nil {
